@@ -1,9 +1,10 @@
 (* C14 — A property is an atomic, typed register with validated writes and change events.
    Property theorems only; model: theories/Property.v, proofs: theories/PropertyProofs.v,
-   linearizability machinery: theories/Lin.v, LinProofs.v.  Every theorem holds for every
+   linearizability machinery: theories/Lin.v, LinProofs.v; the subscriber table (registerEvent /
+   unregisterEvent with client-chosen user ids): theories/PropertySubs.v, PropertySubsProofs.v.  Every theorem holds for every
    implementor-side validator [valid]. *)
 From Coq Require Import NArith List String Permutation.
-From QV Require Import Bytes Property PropertyProofs Lin LinProofs.
+From QV Require Import Bytes Property PropertyProofs Lin LinProofs PropertySubs PropertySubsProofs.
 Import ListNotations.
 Local Open Scope N_scope.
 
@@ -85,6 +86,61 @@ Proof.
   intros c valid init h. apply lin_check_sound. exact pres_eqb_eq.
 Qed.
 Print Assumptions C14_checker_sound_complete.
+
+(* ---- who the subscribers are: the table behind registerEvent / unregisterEvent, keyed by ids the
+   clients choose and shared by every signal and property of the object (PropertySubs.v) ---- *)
+
+(* on that table, reads, client writes and service-side updates are the steps of the register above,
+   the subscribers being the entries registered for the property *)
+Theorem C14_subs_operations_are_register_steps : forall c valid s o, not_subscribe o = true ->
+  sstep c valid s (SOp o) =
+    (let '(p', r, ev) := pstep c valid (pstate_of s) o in
+     ({| s_val := p_val p'; s_regs := s_regs s |}, r, map (fun e => (prop_uid, e)) ev)).
+Proof. exact sop_is_pstep. Qed.
+Print Assumptions C14_subs_operations_are_register_steps.
+
+(* a registration — accepted, or refused because the connection already uses that user id for this or
+   any other signal of the object — leaves every existing entry, hence every subscription to the
+   property, where it was *)
+Theorem C14_subs_registration_keeps_entries : forall c valid s cn obj sig uid mid s' r ev,
+  sstep c valid s (SRegister cn obj sig uid mid) = (s', r, ev) ->
+  ev = [] /\ s_val s' = s_val s /\
+  ((r = RDone /\ s_regs s' = s_regs s ++ [{| r_conn := cn; r_uid := uid; r_sig := sig; r_mid := mid |}]) \/
+   (r = RFail /\ s' = s)).
+Proof. exact register_keeps_entries. Qed.
+Print Assumptions C14_subs_registration_keeps_entries.
+
+(* after any sequence of registrations (colliding or not), unregistrations, signal emissions, reads
+   and writes: a rejected write changes nothing and emits nothing; an accepted write sends exactly
+   one event carrying the new value to each registration for the property that was acknowledged and
+   not unregistered since ([act]: computed from the answers the clients got), and nothing else *)
+Theorem C14_subs_rejected_write_unchanged : forall c valid s o s' ev,
+  sstep c valid s (SOp o) = (s', RFail, ev) -> s' = s /\ ev = [].
+Proof. exact srejected_unchanged. Qed.
+Print Assumptions C14_subs_rejected_write_unchanged.
+Theorem C14_subs_acknowledged_subscription_one_event : forall c valid ops s act o s' ev,
+  srun c valid sinit [] ops = (s, act) -> is_write o = true ->
+  sstep c valid s (SOp o) = (s', RDone, ev) ->
+  exists v, check c valid o = Some v /\ s_val s' = Some v /\ Permutation ev (owed act v).
+Proof. exact acknowledged_subscriptions_one_event. Qed.
+Print Assumptions C14_subs_acknowledged_subscription_one_event.
+
+(* executed: connection 0 subscribes to "delay" with user id 42; its attempt to register "boom" with
+   the same id is refused and moves nothing (the accepted write of 33 reaches it); the same id on
+   connection 1 is another user; unregistering ends the subscription (no event for 34), registering
+   again restarts it (rejected write: nothing; 35: one event under the new message id) *)
+Theorem C14_subs_id_collision_example : srun_out pcfg_clean nonneg sinit ex_sops =
+  [(RDone, []); (RFail, []); (RDone, []);
+   (RDone, [(prop_uid, ((0%nat, 5), le 4 33))]);
+   (RDone, [(boom_uid, ((1%nat, 3), le 4 8))]);
+   (RDone, []);
+   (RDone, []);
+   (RDone, []);
+   (RFail, []);
+   (RDone, [(prop_uid, ((0%nat, 11), le 4 35))])]
+  /\ snd (srun pcfg_clean nonneg sinit [] ex_sops) = [mk_reg 1 42 boom_uid 3; mk_reg 0 42 prop_uid 11].
+Proof. exact ex_sseq. Qed.
+Print Assumptions C14_subs_id_collision_example.
 
 (* ---- the pinned code: a wrongly-typed value whose bytes decode is accepted and stored as is ---- *)
 Theorem C14_refuted_store_untyped :
